@@ -786,6 +786,9 @@ func (it *Interp) load(st *state, p Ptr, t types.Type) Value {
 		vals := make([]uint64, n)
 		for k := 0; k < n; k++ {
 			cv, isC := p.Sym.cells[fmt.Sprintf("%s[%d]%s", p.Sym.muxBase, k, suffix)]
+			if !isC && len(p.Sym.cells) > 0 {
+				cv, isC = 0, true // an entry the initialiser never stores holds the zero value
+			}
 			if !isC {
 				it.unsup("lookup at a symbolic index into %s: entry %d is not a constant the package initialiser stored", strings.TrimPrefix(p.Obj.Name, "global:"), k)
 				return OpaqueV{"table"}
